@@ -474,6 +474,37 @@ fn run(args: &Args, rep: &mut Report) {
     });
     rep.add("effect-sets", true, "all 4096 effect sets x 6 colour combinations x 5 adapters", accs);
 
+    // slot interactions: every assignment of a small colour set (incl. unset and equal
+    // colours in different slots) to the three slots
+    let reps: Vec<Option<MColor>> = vec![None, Some(MColor::Ansi(0)), Some(MColor::Ansi(4)), Some(MColor::Ansi(12)), Some(MColor::Idx(4)), Some(MColor::Idx(200)), Some(MColor::Rgb(10, 20, 30)), Some(MColor::Rgb(0, 0, 0))];
+    let accs = rt::par(reps.len(), |w| {
+        let mut acc = Acc::new();
+        for bg in &reps {
+            for ul in &reps {
+                for e in [0u16, sgr::BOLD, sgr::UNDERLINE | sgr::ITALIC, 4095] {
+                    let m = MStyle { fg: reps[w], bg: *bg, ul: *ul, effects: e };
+                    for a in ADAPTERS {
+                        acc.eval();
+                        match rt::guarded(|| check(a, &m)) {
+                            Ok(_) => {
+                                if e != 0 && !(m.fg.is_none() && m.bg.is_none() && m.ul.is_none()) {
+                                    acc.nontrivial_distinct();
+                                }
+                            }
+                            Err(msg) => {
+                                acc.fail("slot-interactions", json!({"adapter": a, "style": m}), msg);
+                                return acc;
+                            }
+                        }
+                    }
+                }
+            }
+        }
+        acc.samples.push(json!({"fg": format!("{:?}", reps[w]), "bg/ul": "all 8 x 8"}));
+        acc
+    });
+    rep.add("slot-interactions", true, "8 x 8 x 8 colour assignments to (fg, bg, underline) incl. unset and equal colours x 4 effect sets x 5 adapters", accs);
+
     rep.add(
         "random-styles",
         false,
